@@ -20,7 +20,22 @@ def run(ctx):
     cap = 20_000 if ctx.tier == "quick" else 400_000
     for p in mutation_programs():
         units.append(({"program": p, "cfg": {"env_kinds": ["crash"]}}, {"crash": 1, "total": 1}, cap))
-    return simcheck.run_check(ctx, MOD, units, BOUNDS + "; 5 programs whose user code mutates a delivered list/dict in place "
+    # contexts whose recorded failure carries an invocation-error type (raised by user code, or an interrupted at-most-once
+    # step): final like any other recorded failure, also on the Lambda retry that follows
+    S = {"k": "step", "fn": {"ret": 1}}
+    for cls in ("InvocationError", "StepInterruptedError"):
+        p = {"name": f"child[S,raise {cls}]+S", "seq": [{"k": "child", "body": [S, {"k": "raise", "cls": cls, "msg": "m"}]}, S]}
+        units.append(({"program": p, "cfg": {"env_kinds": ["crash"]}}, {"crash": 1, "total": 1}, cap))
+        p = {"name": f"par[raise {cls}|S]+S", "seq": [{"k": "par", "cfg": {"cc": "all_completed"}, "branches": [
+            [{"k": "raise", "cls": cls, "msg": "m"}], [S]]}, S]}
+        units.append(({"program": p, "cfg": {"env_kinds": ["crash"]}}, {"crash": 1, "total": 1}, cap))
+    most = {"k": "step", "sem": "most", "fn": {"ret": "v"}, "retry": "none"}
+    for nm, seq in (("child[most-step]+S", [{"k": "child", "body": [most]}, S]),
+                    ("try[child[most-step]]+W+S", [{"k": "try", "catch": ["CallableRuntimeError", "StepInterruptedError"],
+                                                    "body": {"k": "child", "body": [most]}}, {"k": "wait", "s": 1}, S])):
+        units.append(({"program": {"name": nm, "seq": seq}, "cfg": {"env_kinds": ["crash"]}}, {"crash": 2, "total": 2}, cap))
+    return simcheck.run_check(ctx, MOD, units, BOUNDS + "; 6 programs whose context fails with an invocation-class error or an "
+                              "interrupted at-most-once step; 5 programs whose user code mutates a delivered list/dict in place "
                               "before an equal value is delivered at a later position")
 
 
